@@ -65,7 +65,7 @@ FoldFns == {"sum", "product", "min", "max", "norm"}
 FoldArgs == <<"tensor", "expr", "view", "fview">>
 FoldSigns == <<"pos", "neg", "mixed", "xmin", "xmax">>
 FoldPos(g, n) == IF g \in {"xmin", "xmax"} THEN (IF AllPos THEN 1..n ELSE PosSet(n)) ELSE {0}
-FoldHeaders ==
+FoldHeaders(u) ==
     UNION { UNION { { [fn |-> f, T |-> t, arg |-> a, shape |-> s, sign |-> g, pos |-> p] :
                         f \in FoldFns, t \in Types, a \in {"tensor", "expr", "view", "fview"}, p \in FoldPos(g, NEl(s)) }
                     : g \in {"pos", "neg", "mixed", "xmin", "xmax", "psq"} } : s \in Shapes1 \cup ShapesK }
@@ -110,7 +110,7 @@ FoldBuild(h) ==
        THEN Case("fold", h.fn, h.T, h.arg, h.shape, g, h.pos, "", "", 0, 0, [i \in 1..n |-> V[i] - Bv[i]], Bv, <<>>, <<>>)
        ELSE Case("fold", h.fn, h.T, h.arg, h.shape, g, h.pos, "", "", 0, 0, V, <<>>, <<>>, <<>>)
 FoldValue(x) == IF x.B = <<>> THEN x.A ELSE Plus(x.A, x.B)
-FoldCases == { x \in { FoldBuild(h) : h \in {h \in FoldHeaders : FoldOffered(h) /\ FoldKeep(h)} } :
+FoldCases(u) == { x \in { FoldBuild(h) : h \in {h \in FoldHeaders(0) : FoldOffered(h) /\ FoldKeep(h)} } :
                   x.sign = "psq" => IsSquare(SumSq(FoldValue(x))) }        \* drop psq headers for which no completing element exists
 
 -----------------------------------------------------------------------------------------
@@ -120,7 +120,7 @@ PredArgs == <<"cmp_s", "cmp_es", "cmp_tt", "bool">>
 PredPos(g, n) == IF g \in {"onetrue", "onefalse"} THEN (IF AllPos THEN 1..n ELSE PosSet(n)) ELSE {0}
 \* Tensor<bool,...> argument: T = "b", the boolean input is  A # 0
 PredCombos == {<<"b", "bool", "ne">>} \cup ({"f64", "f32", "i32", "i64"} \X {"cmp_s", "cmp_es", "cmp_tt"} \X {"gt", "lt", "ge", "le", "eq", "ne"})
-PredHeaders ==
+PredHeaders(u) ==
     UNION { UNION { { [fn |-> f, T |-> tao[1], arg |-> tao[2], shape |-> s, sign |-> g, pos |-> p, op |-> tao[3]] :
                         f \in {"all_of", "any_of", "none_of"}, tao \in PredCombos, p \in PredPos(g, NEl(s)) }
                     : g \in {"alltrue", "allfalse", "onetrue", "onefalse", "mixed"} } : s \in Shapes1 \cup {<<3, 4>>, <<2, 3, 5>>} }
@@ -160,7 +160,7 @@ PredBuild(h) ==
     IN IF h.arg = "cmp_es"
        THEN Case("pred", h.fn, h.T, h.arg, h.shape, g, h.pos, h.op, "", 0, thr, [i \in 1..n |-> X[i] - Bv[i]], Bv, Cv, <<>>)
        ELSE Case("pred", h.fn, h.T, h.arg, h.shape, g, h.pos, h.op, "", 0, thr, X, <<>>, Cv, <<>>)
-PredCases == { PredBuild(h) : h \in {h \in PredHeaders : PredOffered(h) /\ PredKeep(h)} }
+PredCases(u) == { PredBuild(h) : h \in {h \in PredHeaders(0) : PredOffered(h) /\ PredKeep(h)} }
 
 -----------------------------------------------------------------------------------------
 (* families iseq / inner:  two operands, each a tensor or a lazy sum *)
@@ -172,7 +172,7 @@ BinOperands(arg, X, Y, key, n) ==      \* -> <<A, B, C, D>>: first operand = A (
         e2 == arg \in {"te", "ee"}
     IN << IF e1 THEN [i \in 1..n |-> X[i] - Bv[i]] ELSE X, IF e1 THEN Bv ELSE <<>>,
           IF e2 THEN [i \in 1..n |-> Y[i] - Dv[i]] ELSE Y, IF e2 THEN Dv ELSE <<>> >>
-IseqHeaders ==
+IseqHeaders(u) ==
     UNION { { [fn |-> "isequal", T |-> t, arg |-> a, shape |-> s, sign |-> g, pos |-> p] :
                  t \in Types, a \in {"tt", "te", "et", "ee"}, g \in {"equal", "diff"}, p \in PosSet(NEl(s)) \cup {0} }
             : s \in Shapes1 \cup {<<3, 4>>, <<2, 3, 5>>} }
@@ -190,9 +190,9 @@ IseqBuild(h) ==
         Y == [i \in 1..n |-> IF i = h.pos THEN X[i] + 2 * Rnd(key, 77, 0, 1) - 1 ELSE X[i]]       \* near miss: one element off by one
         o == BinOperands(h.arg, X, Y, key, n)
     IN Case("iseq", h.fn, h.T, h.arg, h.shape, h.sign, h.pos, "", "", 0, 0, o[1], o[2], o[3], o[4])
-IseqCases == { IseqBuild(h) : h \in {h \in IseqHeaders : IseqKeep(h)} }
+IseqCases(u) == { IseqBuild(h) : h \in {h \in IseqHeaders(0) : IseqKeep(h)} }
 
-InnerHeaders ==
+InnerHeaders(u) ==
     { [fn |-> "inner", T |-> t, arg |-> a, shape |-> s, sign |-> g, pos |-> 0] :
          t \in Types, a \in {"tt", "te", "et", "ee"}, g \in {"pos", "neg", "mixed"}, s \in Shapes1 \cup ShapesK }
 InnerKeep(h) ==
@@ -209,7 +209,7 @@ InnerBuild(h) ==
         Y == [i \in 1..n |-> IF g = "mixed" THEN Rnd(key + 3, i, 0 - 9, 9) ELSE Rnd(key + 3, i, 1, 9)]
         o == BinOperands(h.arg, X, Y, key, n)
     IN Case("inner", h.fn, h.T, h.arg, h.shape, g, 0, "", "", 0, 0, o[1], o[2], o[3], o[4])
-InnerCases == { InnerBuild(h) : h \in {h \in InnerHeaders : InnerKeep(h)} }
+InnerCases(u) == { InnerBuild(h) : h \in {h \in InnerHeaders(0) : InnerKeep(h)} }
 
 -----------------------------------------------------------------------------------------
 (* family trace:  trace (n x n), trace of a batch <<b, n, n>>, inner(a) of a uniform rank-k tensor *)
@@ -217,7 +217,7 @@ UnaryArgs(h) == h.arg \in {"tensor", "expr"}
 TraceShapes == {<<n, n>> : n \in 1..12}
 BatchShapes == {<<2, 2, 2>>, <<3, 2, 2>>, <<2, 3, 3>>, <<3, 4, 4>>}
 Inner1Shapes == {<<1>>, <<5>>, <<9>>, <<1, 1>>, <<2, 2>>, <<3, 3>>, <<4, 4>>, <<5, 5>>, <<2, 2, 2>>, <<3, 3, 3>>, <<2, 2, 2, 2>>}
-TraceHeaders ==
+TraceHeaders(u) ==
     { [fn |-> "trace", T |-> t, arg |-> a, shape |-> s, sign |-> g, pos |-> 0] : t \in Types, a \in {"tensor", "expr"}, g \in {"pos", "neg", "mixed"}, s \in TraceShapes }
     \cup { [fn |-> "trace_b", T |-> t, arg |-> "tensor", shape |-> s, sign |-> "mixed", pos |-> 0] : t \in Types, s \in BatchShapes }   \* batch form takes tensors only
     \cup { [fn |-> "inner1", T |-> t, arg |-> a, shape |-> s, sign |-> "mixed", pos |-> 0] : t \in Types, a \in {"tensor", "expr"}, s \in Inner1Shapes }
@@ -235,13 +235,13 @@ TraceBuild(h) ==
     IN IF h.arg = "expr"
        THEN Case("trace", h.fn, h.T, h.arg, h.shape, g, 0, "", "", 0, 0, [i \in 1..n |-> V[i] - Bv[i]], Bv, <<>>, <<>>)
        ELSE Case("trace", h.fn, h.T, h.arg, h.shape, g, 0, "", "", 0, 0, V, <<>>, <<>>, <<>>)
-TraceCases == { TraceBuild(h) : h \in {h \in TraceHeaders : TraceKeep(h)} }
+TraceCases(u) == { TraceBuild(h) : h \in {h \in TraceHeaders(0) : TraceKeep(h)} }
 
 -----------------------------------------------------------------------------------------
 (* family issym / isorth: exactly representable matrices and their one-element near misses *)
 SymShapes == {<<n, n>> : n \in 1..9} \cup {<<2, 3>>, <<3, 2>>, <<4, 5>>}
 UpperPos(n) == UNION { {(i - 1) * n + j : j \in (i + 1)..n} : i \in 1..n }     \* flat positions with i < j
-SymHeaders ==
+SymHeaders(u) ==
     UNION { { [fn |-> "issymmetric", T |-> t, arg |-> a, shape |-> s, sign |-> g, pos |-> p] :
                  t \in Types, a \in {"tensor", "expr"}, g \in {"sym", "asym", "nonsq"}, p \in {0} \cup (IF s[1] = s[2] THEN UpperPos(s[1]) ELSE {}) }
             : s \in SymShapes }
@@ -266,11 +266,11 @@ SymBuild(h) ==
     IN IF h.arg = "expr"
        THEN Case("issym", h.fn, h.T, h.arg, h.shape, h.sign, h.pos, "", "", 0, 0, [p \in 1..(m * n) |-> V[p] - Bv[p]], Bv, <<>>, <<>>)
        ELSE Case("issym", h.fn, h.T, h.arg, h.shape, h.sign, h.pos, "", "", 0, 0, V, <<>>, <<>>, <<>>)
-SymCases == { SymBuild(h) : h \in {h \in SymHeaders : SymKeep(h)} }
+SymCases(u) == { SymBuild(h) : h \in {h \in SymHeaders(0) : SymKeep(h)} }
 
 RECURSIVE Gcd(_, _)
 Gcd(a, b) == IF b = 0 THEN a ELSE Gcd(b, a % b)
-OrthHeaders ==
+OrthHeaders(u) ==
     UNION { { [fn |-> "isorthogonal", T |-> t, arg |-> a, shape |-> <<n, n>>, sign |-> g, pos |-> p] :
                  t \in Types, a \in {"tensor", "expr"}, g \in {"identity", "sperm", "near", "scaled"}, p \in 0..(n * n) } : n \in 1..8 }
 OrthKeep(h) ==
@@ -299,7 +299,7 @@ OrthBuild(h) ==
     IN IF h.arg = "expr"
        THEN Case("isorth", h.fn, h.T, h.arg, h.shape, h.sign, h.pos, "", "", 0, 0, [p \in 1..(n * n) |-> V[p] - Bv[p]], Bv, <<>>, <<>>)
        ELSE Case("isorth", h.fn, h.T, h.arg, h.shape, h.sign, h.pos, "", "", 0, 0, V, <<>>, <<>>, <<>>)
-OrthCases == { OrthBuild(h) : h \in {h \in OrthHeaders : OrthKeep(h)} }
+OrthCases(u) == { OrthBuild(h) : h \in {h \in OrthHeaders(0) : OrthKeep(h)} }
 
 -----------------------------------------------------------------------------------------
 (* family det.  strat: simple | lu | qr (DetCompType).  Matrix families:                            *)
@@ -310,7 +310,7 @@ OrthCases == { OrthBuild(h) : h \in {h \in OrthHeaders : OrthKeep(h)} }
 (*             the determinant changes sign)                                                         *)
 (* The closed forms (simple, n <= 4) are judged exactly, the factorisation routes by DetWithin.      *)
 DetExact(strat, n) == strat = "simple" /\ n <= 4
-DetHeaders ==
+DetHeaders(u) ==
     { [fn |-> f, T |-> t, arg |-> a, shape |-> <<n, n>>, sign |-> g, pos |-> d, strat |-> st] :
          f \in {"determinant", "det"}, t \in Types, a \in {"tensor", "expr"}, n \in 1..DetMax, g \in {"gen", "dom", "swaplast"},
          d \in 1..Draws, st \in {"simple", "lu", "qr"} }
@@ -358,14 +358,17 @@ DetBuild(h) ==
     IN IF h.arg = "expr"
        THEN Case("det", h.fn, h.T, h.arg, h.shape, h.sign, h.pos, "", h.strat, ls, 0, [p \in 1..(nb * n * n) |-> Ve[p] - Bv[p]], Bv, <<>>, <<>>)
        ELSE Case("det", h.fn, h.T, h.arg, h.shape, h.sign, h.pos, "", h.strat, ls, 0, Ve, <<>>, <<>>, <<>>)
-DetCases == { DetBuild(h) : h \in {h \in DetHeaders : DetOffered(h) /\ DetKeep(h)} }
+DetCases(u) == { DetBuild(h) : h \in {h \in DetHeaders(0) : DetOffered(h) /\ DetKeep(h)} }
 
 -----------------------------------------------------------------------------------------
 \* VERIF_FAM selects one family (the driver runs the families as parallel TLC processes); unset or "all" = every family
 FamSel == IF "VERIF_FAM" \in DOMAIN IOEnv THEN IOEnv.VERIF_FAM ELSE "all"
-Sel(f, S) == IF FamSel \in {"all", f} THEN S ELSE {}
-Cases == Sel("fold", FoldCases) \cup Sel("pred", PredCases) \cup Sel("iseq", IseqCases) \cup Sel("inner", InnerCases)
-         \cup Sel("trace", TraceCases) \cup Sel("issym", SymCases) \cup Sel("isorth", OrthCases) \cup Sel("det", DetCases)
+\* (the family sets take a dummy parameter so that TLC does not precompute all of them as constants at start-up)
+Want(f) == FamSel \in {"all", f}
+Cases == (IF Want("fold") THEN FoldCases(0) ELSE {}) \cup (IF Want("pred") THEN PredCases(0) ELSE {})
+         \cup (IF Want("iseq") THEN IseqCases(0) ELSE {}) \cup (IF Want("inner") THEN InnerCases(0) ELSE {})
+         \cup (IF Want("trace") THEN TraceCases(0) ELSE {}) \cup (IF Want("issym") THEN SymCases(0) ELSE {})
+         \cup (IF Want("isorth") THEN OrthCases(0) ELSE {}) \cup (IF Want("det") THEN DetCases(0) ELSE {})
 
 Init == c \in Cases
 Next == UNCHANGED c
